@@ -811,7 +811,7 @@ func lemmaCreateThenMapQueue(data []byte, cap uint32) {
 //@ pure wfList(b *bufferList): bool = wfGhost(b) && wfMem(b)
 
 //@ func (*bufferList).remain
-//@   ensures  result == int(*b.size - 1)
+//@   ensures  result == int32(*b.size - 1)
 //@   modifies nothing
 
 //@ func (*bufferList).pop
